@@ -188,6 +188,9 @@ func genPayload(t *rapid.T, n int) tla.Value {
 
 func TestC11Acceptor(t *testing.T) {
 	rapid.Check(t, func(t *rapid.T) {
+		if vstat.OverBudget() {
+			return
+		}
 		vstat.Case()
 		mode := rapid.SampledFrom([]string{"in-process", "rpc", "mixed"}).Draw(t, "transport")
 		vstat.Class("acceptor.transport." + mode)
